@@ -295,6 +295,15 @@ def explore(run, max_paths=20000, on_path=None):
                 res.paths += 1
         except Unsupported as e:
             res.unsupported.append((n, str(e)))
+        except (RecursionError, MemoryError):
+            raise
+        except Exception as e:
+            # an exception of the interpreter itself (a stub called in a way its model does not expect, an
+            # unmodelled construct): this path is out of reach -- undecided, never a verdict
+            import traceback as _tb
+            last = _tb.extract_tb(e.__traceback__)[-1]
+            res.unsupported.append((n, 'interpreter error on this path (%s: %s at %s:%d)'
+                                    % (type(e).__name__, str(e)[:120], last.filename.split('/')[-1], last.lineno)))
         # schedule alternatives created beyond the prefix
         for k in range(len(prefix), len(p.taken)):
             alt, others = p.taken[k]
